@@ -130,6 +130,10 @@ def build_ext(sanitize=False):
     cache = VERIF / ".cache" / "ext"
     out = cache / tag
     if (out / "OK").exists():
+        try:
+            os.utime(out)          # mark as in use (pruning goes by age)
+        except OSError:
+            pass
         return out
     cache.mkdir(parents=True, exist_ok=True)
     tmp = Path(tempfile.mkdtemp(prefix="build.", dir=cache))
@@ -160,11 +164,14 @@ def build_ext(sanitize=False):
         os.rename(tmp, out)
     except OSError:
         shutil.rmtree(tmp, ignore_errors=True)
-    # keep the cache small
+    # keep the cache small: only builds not used for 6 hours, beyond the 40 newest, are removed
+    # (checks of several trees run concurrently; a directory in use must never disappear)
+    import time
     entries = sorted((p for p in cache.iterdir() if p.is_dir() and (p / "OK").exists()),
                      key=lambda p: p.stat().st_mtime)
-    for p in entries[:-6]:
-        shutil.rmtree(p, ignore_errors=True)
+    for p in entries[:-40]:
+        if time.time() - p.stat().st_mtime > 6 * 3600:
+            shutil.rmtree(p, ignore_errors=True)
     return out
 
 
@@ -213,6 +220,13 @@ def use_impl():
             del sys.modules[m]
     import warnings
     warnings.filterwarnings("ignore")
+    # the git-ignored c_hydrodiy_*.so under /repo/src are old build output: never fall back to them
+    import importlib
+    for pkg in EXT_SOURCES:
+        mod = importlib.import_module(f"c_hydrodiy_{pkg}")
+        if Path(mod.__file__).resolve().parent != Path(ext).resolve():
+            raise BrokenTie(f"c_hydrodiy_{pkg} was imported from {mod.__file__}, not from the rebuilt "
+                            f"kernels in {ext}")
     return ext
 
 
